@@ -7,6 +7,10 @@ import vlib
 LEVEL = "model_checking"
 
 
+ALIAS = [0, 64, 65, 66, 129, 130, 257, 258, 4097, 4098, 65537, 65538, 16777216, 16777217, 33554432, 2 ** 31 - 63, 2 ** 31 - 62,
+         0x80000001, 0x80000002, 0xffffffc1, 0xffffffc2, 0xfffffffe, 0xffffffff]
+
+
 def check(ctx):
     thorough = ctx.tier == "thorough"
     ctx.rule = ("every datagram of the bounded-exhaustive sFlow exporter (SFlowGen.tla; TLC checks FilterTransparent for 8 filter lists "
@@ -14,7 +18,8 @@ def check(ctx):
                 "filter list in {[],[1],[2],[3],[1,2],[7],[2,3],[4,1]}; oracle 1 (the property): the filtered result equals the "
                 "real unfiltered result minus the listed types; oracle 2: TLC validates each filtered result against "
                 "SFlow!Decode(buf, filter). Non-trivial: the filter removes at least one sample or the datagram carries a sample "
-                "the filter must keep; distinct by (datagram, filter).")
+                "the filter must keep; distinct by (datagram, filter). Also: the real sFlow workers, 4 in parallel under the race detector, "
+                "every decoder given the same configured list [7, 2] (C12's parallel stage).")
     ctx.assumptions += ["flow samples are type 1, counter samples type 2; other types never appear in the output"]
     cases = sflowlib.model(ctx, thorough)
     ctx.exhaustive = True
@@ -25,7 +30,9 @@ def check(ctx):
     g = __import__("gen_sflow").Gen(ctx.rng)
     for _ in range(3000 if thorough else 500):
         buf, types = g.datagram()
-        extra = [[ctx.rng.choice([1, 2, 3, 4, 7, 4095])], [2, ctx.rng.randrange(0, 5000), 1]]
+        extra = [[ctx.rng.choice([1, 2, 3, 4, 7, 4095])], [2, ctx.rng.randrange(0, 5000), 1],
+                 # unknown types that become 1 or 2 when truncated or reduced (mod 64, 256, 65536, 2^31; byte-swapped)
+                 [ctx.rng.choice(ALIAS)], [ctx.rng.choice(ALIAS), ctx.rng.choice(ALIAS)]]
         jobs.append({"msgs": [{"buf": buf, "filter": f} for f in sflowlib.FILTERS + extra]})
     res = sflowlib.run(ctx, drv, jobs, "f")
     rows = []
@@ -55,7 +62,8 @@ def check(ctx):
                               "(unfiltered: %d flow / %d counter samples; filtered: %d / %d)"
                               % (flt, d, len(base["flows"]), len(base["counters"]), len(got["flows"]), len(got["counters"])),
                               {"buf": buf, "filter": flt})
-            rows.append({"buf": buf, "filter": flt, "res": got})
+            if all(v < 2 ** 31 for v in flt):       # TLC integers are 32-bit: larger unknown types are judged by oracle 1 only
+                rows.append({"buf": buf, "filter": flt, "res": got})
     ctx.traces_validated += len(jobs)
     ctx.sample({"datagram": jobs[len(cases) + 1]["msgs"][0]["buf"], "filters": sflowlib.FILTERS})
     sub = rows if thorough else rows[::5]
@@ -66,6 +74,8 @@ def check(ctx):
                       {"buf": rr["buf"], "filter": rr["filter"], "real": rr["res"]})
     else:
         ctx.traces_validated += len(sub)
+    from props import c12
+    c12.parallel_stage(ctx, thorough, protos=["sflow"], sflow_filter=[7, 2])
     # binding self-test: a filtered-out sample put back must be rejected
     i = next(k for k, r in enumerate(sub) if 1 in r["filter"] and not r["res"]["flows"] and r["res"]["counters"])
     m = copy.deepcopy(sub[i:i + 1])
